@@ -10,7 +10,10 @@
 
 
 /* =====================================================================================================
- * spifconf_shell_expand, tier P.
+ * spifconf_shell_expand, tier P -- PARKED DESIGN, used by no unit (see units/C10/prop.json and
+ * units/C10/expand_p.attempt.txt): cbmc 6.11 does not get the DFCC loop-contract instrumentation of this
+ * function through (> 11 GB).  The loop-contract table annot/conf.c.expand.ann expands to nothing unless a
+ * unit defines VERIF_EXPAND_ANNOT.
  *
  * Ghosts (all arbitrary unless a harness shapes them):
  *   vg_nin      position of a NUL in the argument (the callee copies it to the local EXP_N at entry, so that
